@@ -449,6 +449,11 @@ def rule_sort_ownership(ctx):
                          witness=['receiver: ' + T.show(recv)[:160]])
         else:
             ctx.holds('R4', '_get_aligned_axes: sorts _common_axis(...).copy()')
+        skip = [a for a, pol in e.guards if any(x[0] == 'call' and T.call_name(x) in ('is_monotonic', 'is_monotonic_equal', 'is_decreasing', 'is_decreasing_equal') for x in T.subterms(a))
+                or any(x[0] == 'attr' and x[2] == '_monotonic' for x in T.subterms(a))]
+        if skip:
+            ctx.violated('R5', fi, e.node, 'with sort=True the common axis is sorted only under the condition %s: "monotonic" is also true for strictly decreasing labels, which are then '
+                         'left in decreasing order (sort=True promises ascending labels)' % T.show(skip[0])[:80], node=e.node)
         if e.a[2] or e.a[3]:
             ctx.violated('R5', fi, e.node, 'sort=True means ascending labels: Axis.sort must be called without arguments', node=e.node)
         else:
